@@ -44,3 +44,16 @@ claim("C19",
       "dominance and control-dependence rules cross-checked between the two sibling tries (go/ssa)",
       "Decides two structural necessary conditions in both tries — every store into a children map is dominated by a nil-check-and-make of that map; a child is pruned only under a test of both its payload and its children — and that count/iterate/match agree on the emptiness predicate. A small part of the property: map-like behaviour over all operation sequences is not decided.",
       "Not decided: map semantics over operation sequences, dump/load round-trip equality, empty-level aliasing ('a//b', 'a/').")
+
+claim("C11",
+      "path-sensitive decision table of the teardown routine (atoms: first caller, record found, record ours, DISCONNECT seen), must-call summaries over deferred calls, path order in the CONNECT handler and the read loop, provenance of keys (go/ssa)",
+      "Decides on every path: teardown deletes the registry entry once, every remembered subscription, and the session record whenever it is still ours (also after DISCONNECT); every exit of the per-connection goroutine closes the connection; the keep-alive deadline is armed before that goroutine starts and on every loop iteration; the loop ends only on a decode/processing error; bookkeeping pairs; peer-failure cleanup by peer id; registered sessions always get their goroutine. Necessary conditions; timing is not decided.",
+      "Not decided: keep-alive arithmetic / wall-clock behaviour, gossip delivery, quiescent cross-node listings.")
+claim("C12",
+      "path tables over the CONNECT handler, the PINGREQ arm (type-switch scenario) and the teardown routine; path atoms in SessionMetadatas.Delete (go/ssa)",
+      "Decides on every accepting CONNECT path the order lookup → delete found record (by its own id) → create → register → serve → CONNACK, each exactly once; that PINGREQ is answered only when the id resolves to the asking session and otherwise ends it; that teardown never deletes a record that resolves elsewhere and keys every delete by its own id; that deleting an absent record is not an error. Necessary conditions.",
+      "Not decided: cross-node interleavings of gossip and takeover; authentication back ends that reuse session ids.")
+claim("C13",
+      "decision table of the teardown routine for the will, control-dependence of the Disconnected flag on the dispatcher's sentinel and who-returns analysis, loop matcher + provenance in the peer-failure handler, field-by-field capture, merge table for session records (go/ssa)",
+      "Decides on every teardown path that no will is published after DISCONNECT and exactly one (this session's, through the normal publish path) otherwise when the record is absent or ours; that the flag is set only under the session-ended sentinel, which only the DISCONNECT and PINGREQ arms return; that survivors append each lost session's will once, qualified with that session's mount point; that the will is captured from the CONNECT fields and stored in the record. Necessary conditions.",
+      "Not decided: 'each matching subscriber exactly once' across nodes, retained wills, run-time membership.")
